@@ -87,9 +87,9 @@ fn receive_all_vs_decoder<const N: usize>() {
 }
 
 #[kani::proof]
-#[kani::unwind(12)]
+#[kani::unwind(10)]
 fn c16_receive_all_vs_decoder_q() {
-    receive_all_vs_decoder::<9>();
+    receive_all_vs_decoder::<7>();
 }
 
 #[kani::proof]
@@ -152,7 +152,7 @@ fn emit(buf: &mut [u8], off: usize) -> (usize, Rec) {
 /// with an arbitrary choice of helper after the first chunk: both telegrams arrive, in order,
 /// once each.
 #[kani::proof]
-#[kani::unwind(14)]
+#[kani::unwind(9)]
 fn c16_chunked_stream_q() {
     let mut stream = [0u8; 12];
     let (n1, r1) = emit(&mut stream, 0);
@@ -207,11 +207,11 @@ fn c16_chunked_stream_q() {
 
 /// After undecodable data was discarded, a telegram arriving separately is received correctly.
 #[kani::proof]
-#[kani::unwind(14)]
+#[kani::unwind(9)]
 fn c16_garbage_then_telegram_q() {
     let mut buf: [u8; 12] = kani::any();
     let glen: usize = kani::any();
-    kani::assume(glen >= 1 && glen <= 6);
+    kani::assume(glen >= 1 && glen <= 4);
     kani::assume(matches!(Telegram::deserialize(&buf[..glen]), Some(Err(()))));
     let mut phy = KPhy::<12, 4>::idle_with(buf, glen);
     let now = crate::time::Instant::ZERO;
